@@ -26,7 +26,7 @@ use vcore::ydoc::{self, Node, RenderOpts, Style};
 
 /// Safety cap on documents per type in the exhaustive part (never reached at the registered bounds;
 /// `exhaustive/truncated_types` counts the types where it was).
-const TAPE_CAP: u64 = 200_000;
+const TAPE_CAP: u64 = 3_000_000;
 
 /// Signatures of open known findings (only to avoid building the replay JSON for cases that
 /// `Run::violation` will fold into a KNOWN-FINDING line anyway).
@@ -52,6 +52,7 @@ fn report(run: &Run, sig: &str, case: impl FnOnce() -> serde_json::Value, detail
 }
 
 const SIG_TAGGED_MAP: &str = "C05:tag-on-mapping-payload-ignored";
+const SIG_NOSCHEMA_TAGGED: &str = "C05:no_schema:tagged-variant-scalar-payload-rejected-as-unquoted-string";
 const SIG_TAGGED_NULL: &str = "C05:tagged-newtype-payload:plain-null-read-as-string";
 
 /// Option vectors crossed into the workloads. The statement's clauses apply under each of them;
@@ -234,6 +235,29 @@ fn diff_kind(ty: &Ty, a: &TVal, b: &TVal) -> String {
     }
 }
 
+/// Maps with repeated keys collapsed to the last pair per key (input: maps already sorted stably by key).
+fn last_wins(v: &TVal) -> TVal {
+    match v {
+        TVal::Some(x) => TVal::some(last_wins(x)),
+        TVal::Variant(i, x) => TVal::Variant(*i, Box::new(last_wins(x))),
+        TVal::Seq(xs) => TVal::Seq(xs.iter().map(last_wins).collect()),
+        TVal::Tuple(xs) => TVal::Tuple(xs.iter().map(last_wins).collect()),
+        TVal::Struct(xs) => TVal::Struct(xs.iter().map(last_wins).collect()),
+        TVal::Map(ps) => {
+            let mut out: Vec<(TVal, TVal)> = Vec::new();
+            for (k, x) in ps {
+                let (k, x) = (last_wins(k), last_wins(x));
+                match out.last_mut() {
+                    Some(l) if l.0 == k => l.1 = x,
+                    _ => out.push((k, x)),
+                }
+            }
+            TVal::Map(out)
+        }
+        other => other.clone(),
+    }
+}
+
 struct CaseMeta<'a> {
     /// "seed" or "derived:<name>"
     mode: &'a str,
@@ -294,6 +318,7 @@ fn check_pair(
         bare_nonunit_seen: false,
         tagged_null_payload_seen: false,
         tagged_map_payload_seen: false,
+        tagged_scalar_payload_seen: false,
         tail_ctx: None,
     };
     let expect = ip.interp(ty, rnode);
@@ -303,6 +328,7 @@ fn check_pair(
     let bare_nonunit = ip.bare_nonunit_seen;
     let tagged_null = ip.tagged_null_payload_seen;
     let tagged_map = ip.tagged_map_payload_seen;
+    let tagged_scalar = ip.tagged_scalar_payload_seen;
     // One root cause, several symptoms: a bare scalar naming a non-unit variant makes the
     // library read the *following* node as the payload. Any wrongly accepted document that
     // contains such a scalar is classified under this one signature.
@@ -355,18 +381,35 @@ fn check_pair(
         Ok(a) => a,
     };
     let sorted = matches!(runner, Runner::Derived(_));
-    if matches!(runner, Runner::Derived(d) if !d.buffered) {
+    if matches!(runner, Runner::Derived(d) if !d.buffered) && matches!(expect, Expect::MustBe(_) | Expect::MustErr(_)) {
         // harness soundness guard: the dynamic seed must behave like the derived code on the same input
         match (run_seed(ty, doc, ov), &actual) {
-            (Ok(Ok(a)), Ok(b)) if a.sorted_maps() == b.sorted_maps() => loc.count("seed_vs_derive/agree:value"),
+            (Ok(Ok(a)), Ok(b))
+                if (ov == 2 && last_wins(&a.sorted_maps()) == last_wins(&b.sorted_maps())) || a.sorted_maps() == b.sorted_maps() =>
+            {
+                loc.count("seed_vs_derive/agree:value")
+            }
             (Ok(Err(_)), Err(_)) => loc.count("seed_vs_derive/agree:error"),
             _ => {
                 loc.count("seed_vs_derive/DISAGREE");
+                if std::env::var("C05_DEBUG").is_ok() {
+                    eprintln!("DISAGREE ov={ov} {} doc={doc:?}\n   seed={:?}\n   real={:?}", meta.mode, run_seed(ty, doc, ov).map(|r| r.map_err(|e| vcore::errs::kind(&e))), actual.as_ref().map_err(vcore::errs::kind));
+                }
                 run.inconclusive("harness: SchemaSeed and the derived type disagree on the same document");
             }
         }
     }
-    let same = |a: &TVal, b: &TVal| if sorted { a.sorted_maps() == b.sorted_maps() } else { a == b };
+    // derived map targets (BTreeMap) do not keep delivery order, and under LastWins a passed-through
+    // duplicate overwrites the earlier pair
+    let same = |a: &TVal, b: &TVal| {
+        if !sorted {
+            a == b
+        } else if ov == 2 {
+            last_wins(&a.sorted_maps()) == last_wins(&b.sorted_maps())
+        } else {
+            a.sorted_maps() == b.sorted_maps()
+        }
+    };
     let edit_class = meta.edit.map(|e| e.class()).unwrap_or("exact");
     if let Err(e) = &actual {
         loc.observe("error_kinds", vcore::errs::kind(e));
@@ -387,7 +430,14 @@ fn check_pair(
             }
         }
         (Expect::MustBe(v), Err(e)) => {
-            let sig = if tagged_map { SIG_TAGGED_MAP.to_string() } else { format!("C05:rejected:{}", vcore::errs::kind(e)) };
+            let sig = if tagged_scalar && ov == 1 && e.to_string().contains("must be quoted") {
+                // no_schema: the payload of `!Variant payload` is refused as if it were an unquoted string
+                SIG_NOSCHEMA_TAGGED.to_string()
+            } else if tagged_map {
+                SIG_TAGGED_MAP.to_string()
+            } else {
+                format!("C05:rejected:{}", vcore::errs::kind(e))
+            };
             report(run, &sig, case, || {
                 format!("expected Ok({v:?}) | got Err({e})")
             });
@@ -626,8 +676,11 @@ fn check_notations(
     // Signature classes. Two root causes get one signature each:
     //  * a tag on a *mapping* node is not looked at by the enum reader at all;
     //  * a tag-selected scalar payload is handed on as `!!str`, so a plain null becomes a string/char.
+    let quoting = matches!(&a, Err(e) if e.to_string().contains("must be quoted"));
     let sig = if pclass == "map" {
         SIG_TAGGED_MAP.to_string()
+    } else if ov == 1 && shape == "tag-err-map-ok" && quoting && matches!(payload, Node::Scalar { .. }) {
+        SIG_NOSCHEMA_TAGGED.to_string()
     } else if vkind == "newtype" && matches!(tclass, "string" | "char") && matches!(pclass, "plain-null" | "plain-empty") && shape == "tag-ok-map-err" {
         SIG_TAGGED_NULL.to_string()
     } else {
@@ -648,6 +701,27 @@ fn ty_id(ty: &Ty) -> (u64, usize) {
     (vcore::rng::fnv(format!("{ty:?}").as_bytes()), ty.depth())
 }
 
+/// Edits kept in the 4-node space with aliases / merge keys woven in (the ones that interact with
+/// replayed or merged entries): arity, kind swaps, null, duplicate / missing / unknown fields and keys.
+fn woven_edit_filter(e: &Edit) -> bool {
+    matches!(
+        e,
+        Edit::Surplus(0, 0)
+            | Edit::Short(0)
+            | Edit::ScalarForContainer
+            | Edit::NullForContainer
+            | Edit::DuplicateKey
+            | Edit::DuplicateField(_)
+            | Edit::MissingField(_)
+            | Edit::UnknownField(2)
+    )
+}
+
+/// Edits kept in the 4-node space with merge keys woven in: the ones about field sets.
+fn merge_edit_filter(e: &Edit) -> bool {
+    matches!(e, Edit::DuplicateField(_) | Edit::MissingField(_))
+}
+
 struct TapeCfg<'a> {
     rich: bool,
     max_len: usize,
@@ -663,6 +737,8 @@ struct TapeCfg<'a> {
     ovs: &'a [usize],
     /// additional option vectors for duplicate-key / duplicate-field edits
     dup_ovs: &'a [usize],
+    /// restrict the edits applied (None = all)
+    edit_filter: Option<fn(&Edit) -> bool>,
     sample_every: u64,
 }
 
@@ -702,6 +778,11 @@ fn run_tape(
             let Some((doc, rnode)) = render(node, flow, cfg.ro) else {
                 if let Some((e, _)) = edit {
                     loc.count(&format!("generator_invalid_by_edit/{}", e.class()));
+                }
+                if std::env::var("C05_DEBUG").is_ok() {
+                    let mut t = node.clone();
+                    t.set_flow(flow);
+                    eprintln!("GENINV {:?}", ydoc::render(&t, cfg.ro).text);
                 }
                 run.inconclusive("generator-invalid: document not parsed as intended");
                 continue;
@@ -753,6 +834,9 @@ fn run_tape(
         for ei in 0..s.edits.len() {
             all.push((si, ei));
         }
+    }
+    if let Some(f) = cfg.edit_filter {
+        all.retain(|(si, ei)| f(&sites[*si].edits[*ei].0));
     }
     let chosen: Vec<usize> = match pick_edits(all.len()) {
         Some(v) => v,
@@ -857,30 +941,58 @@ fn main() {
         run.note(format!("debug run: node bounds overridden by C05_NODES={nodes_override:?}"));
     }
     let nb = |i: usize, d: usize| nodes_override.get(i).copied().unwrap_or(d);
-    let spaces: Vec<(&'static str, &TyGrammar, usize, bool, &[bool])> = vec![
-        ("A1", &small, nb(0, tier.pick(4, 4)), false, &[false, true]),
-        ("A2", &full, nb(1, tier.pick(3, 4)), false, &[false, true]),
-        ("A3", &small, nb(2, tier.pick(3, 4)), true, &[false]),
+    // weave: 0 = plain documents, 1 = aliases, 2 = merge keys, 3 = both
+    let mut spaces: Vec<(&'static str, &TyGrammar, usize, u8, &[bool])> = vec![
+        ("A1", &small, nb(0, 4), 0, &[false, true]),
+        ("A2", &full, nb(1, tier.pick(3, 4)), 0, &[false, true]),
+        ("A3", &small, nb(2, 3), 3, &[false]),
     ];
+    if tier == Tier::Thorough {
+        spaces.push(("A4", &small, nb(3, 4), 1, &[false]));
+        spaces.push(("A5", &small, nb(4, 4), 2, &[false]));
+    }
     let mut scope_lines = Vec::new();
     for (name, grammar, max_nodes, woven, flows) in &spaces {
         if !part_on(name) {
             continue;
         }
-        let tys = ty::small_tys(*max_nodes, grammar);
+        // woven spaces: only types in which an alias / a merge key can be placed at all
+        // (for the others the documents are exactly those of A1)
+        fn has_coll(t: &Ty) -> bool {
+            matches!(t, Ty::Seq(_) | Ty::Map(..)) || t.children().iter().any(|c| has_coll(c))
+        }
+        fn has_wide_struct(t: &Ty) -> bool {
+            let here = match t {
+                Ty::Struct(s) => s.body.fields.len() >= 2,
+                Ty::Enum(e) => e.variants.iter().any(|v| matches!(v, ty::VariantTy::Struct(f) if f.fields.len() >= 2)),
+                _ => false,
+            };
+            here || t.children().iter().any(|c| has_wide_struct(c))
+        }
+        let tys: Vec<Ty> = ty::small_tys(*max_nodes, grammar)
+            .into_iter()
+            .filter(|t| *woven == 0 || (*woven & 1 != 0 && has_coll(t)) || (*woven & 2 != 0 && has_wide_struct(t)))
+            .collect();
         run.count(&format!("exhaustive/{name}/types"), tys.len() as u64);
         let cfg = TapeCfg {
             rich: false,
             max_len: 2,
-            aliases: *woven,
-            merges: *woven,
+            aliases: *woven & 1 != 0,
+            merges: *woven & 2 != 0,
             flows,
             ro: &ro,
             runner: &seed_runner,
             mode: "seed",
             part: name,
             ovs: &[0],
-            dup_ovs: &[2, 3],
+            dup_ovs: if *woven == 2 && *max_nodes >= 4 { &[3] } else { &[2, 3] },
+            edit_filter: if *woven == 2 && *max_nodes >= 4 {
+                Some(merge_edit_filter)
+            } else if *woven != 0 && *max_nodes >= 4 {
+                Some(woven_edit_filter)
+            } else {
+                None
+            },
             sample_every: 40_009,
         };
         // cost estimate per type (number of documents x edits), biggest first, so the long ones start early
@@ -892,7 +1004,12 @@ fn main() {
                 ch.rewind();
                 let mut b = cfg.builder(&mut ch);
                 let _ = b.build(&tys[i]);
-                cases += flows.len() as u64 * (1 + b.sites.iter().map(|s| s.edits.len() as u64).sum::<u64>());
+                let n_edits = b
+                    .sites
+                    .iter()
+                    .map(|s| s.edits.iter().filter(|(e, _)| cfg.edit_filter.is_none_or(|f| f(e))).count() as u64)
+                    .sum::<u64>();
+                cases += flows.len() as u64 * (1 + n_edits);
                 tapes += 1;
                 if !ch.next_tape() || tapes >= TAPE_CAP {
                     break;
@@ -931,14 +1048,25 @@ fn main() {
             loc.flush(&run);
         });
         scope_lines.push(format!(
-            "[{name}] all types with <= {max_nodes} nodes of {} x every matching document{} x every single near-miss edit at every site x layouts {:?} (flow?), read under default options, duplicate-key/-field edits also under LastWins and FirstWins",
+            "[{name}] all types with <= {max_nodes} nodes of {}{} x every matching document{} x every single near-miss edit at every site x layouts {:?} (flow?), read under default options, duplicate-key/-field edits also under {}",
             if std::ptr::eq(*grammar, &small) {
                 "the small grammar (leaves i32, String, (), unit-only enum; unary Option / newtype / Vec / Map<String,_> / struct{f0} (+deny_unknown_fields) / enum{V0|V1(T)} / enum{V0|V1{f0:T}}; binary tuple / tuple struct / struct{f0,f1} (+deny) / enum{V0|V1(T,U)})"
             } else {
                 "the full shape grammar of vcore::ty::TyGrammar::full() (leaves bool, i32, f64, char, String, (), unit struct, unit-only enum; the same constructors plus Map with String / i32 / bool / char / tuple / struct keys)"
             },
-            if *woven { " with every placement of an alias (a Vec item / Map value replaced by an alias of an earlier one) and every merge-key form (`<<: {..}`, `<<: [{..},{..}]`, anchored `<<: &m {..}` / `<<: *m`, with and without an overridden entry, at front / middle / end)" } else { "" },
-            flows
+            match *woven {
+                1 => " that contain a Vec or Map",
+                2 => " that contain a struct with two fields",
+                3 => " that contain a Vec, a Map or a struct with two fields",
+                _ => "",
+            },
+            if *woven == 1 {
+                " with every placement of an alias (a Vec item / Map value replaced by an alias of an earlier one); edits restricted to arity / kind / null / duplicate / missing / unknown-field ones"
+            } else if *woven == 2 {
+                " with every merge-key form on structs (`<<: {..}`, `<<: [{..},{..}]`, anchored `<<: &m {..}` / `<<: *m`); edits restricted to duplicate / missing field"
+            } else if *woven == 3 { " with every placement of an alias (a Vec item / Map value replaced by an alias of an earlier one) and every merge-key form (`<<: {..}`, `<<: [{..},{..}]`, anchored `<<: &m {..}` / `<<: *m`, with and without an overridden entry, at front / middle / end)" } else { "" },
+            flows,
+            if *woven == 2 && *max_nodes >= 4 { "FirstWins" } else { "LastWins and FirstWins" }
         ));
     }
 
@@ -973,6 +1101,7 @@ fn main() {
                 part: "random",
                 ovs: &ov,
                 dup_ovs: &[2, 3],
+                edit_filter: None,
                 sample_every: 200_003,
             };
             run_tape(&run, &mut lo, &mut loc, &ty, &mut ch, &tcfg, |n| {
@@ -986,7 +1115,7 @@ fn main() {
     // ---- part C: real derived types through from_str_with_options, same oracle
     eprintln!("part B done at {:.1}s", run.elapsed_s());
     let fam = derived::family();
-    let n_derived = tier.pick(12_000, 100_000);
+    let n_derived = tier.pick(20_000, 150_000);
     par_range(if part_on("C") { fam.len() * n_derived } else { 0 }, |idx| {
         let d = &fam[idx % fam.len()];
         let mut rng = Rng::stream(run.seed ^ 0xDE71, idx as u64);
@@ -1011,6 +1140,7 @@ fn main() {
             part: "derived",
             ovs: &ov,
             dup_ovs: if d.buffered { &[] } else { &[2, 3] },
+            edit_filter: None,
             sample_every: 100_003,
         };
         run_tape(&run, &mut lo, &mut loc, &d.ty, &mut ch, &tcfg, |n| {
@@ -1045,7 +1175,7 @@ fn main() {
             }
             loc.flush(&run);
         });
-        let n_rand = tier.pick(40_000, 400_000);
+        let n_rand = tier.pick(80_000, 800_000);
         par_range(if part_on("D") { n_rand } else { 0 }, |i| {
             let mut rng = Rng::stream(run.seed ^ 0x7A65, i as u64);
             let cfg = TyCfg { nullable_in_option: rng.chance(1, 8), ..TyCfg::default() };
